@@ -71,6 +71,9 @@ type streamOpts struct {
 	Lua       bool
 	Sentinel  bool
 	LFs       bool
+	// OpenTx: the stream is picked up inside a transaction (a resumed or continued PSYNC whose offset lies between a
+	// MULTI and its EXEC): it begins with the rest of the block and an EXEC that has no MULTI before it
+	OpenTx bool
 }
 
 func caseMix(rng *prng.R, s string) string {
@@ -124,6 +127,17 @@ func genStream(rng *prng.R, o streamOpts) []srcCmd {
 	}
 	if cur < 0 {
 		sel(o.DBs[rng.Intn(len(o.DBs))])
+	}
+	if o.OpenTx {
+		pr := rng.At(0x7A11) // derived without advancing rng: every other stream stays what it was
+		for k := pr.Range(1, 3); k > 0; k-- {
+			p := ""
+			if len(o.KeyPrefix) > 0 {
+				p = o.KeyPrefix[pr.Intn(len(o.KeyPrefix))]
+			}
+			out = append(out, srcCmd{Name: caseMix(pr, "set"), Args: [][]byte{[]byte(fmt.Sprintf("%skey%d", p, pr.Intn(o.Keys))), []byte(fmt.Sprintf("tail#%d", k))}, DB: cur, InTx: true})
+		}
+		out = append(out, srcCmd{Name: caseMix(pr, "exec"), DB: cur})
 	}
 	inTx := 0
 	for len(out) < o.N {
